@@ -83,6 +83,16 @@ func (g *gen) shared(withRanges bool) {
 	} else {
 		g.errs = append(g.errs, "GetMapKeys not found")
 	}
+	if sk := g.funcDecl(g.parse("internal/parser/yaml/parser.go"), "Get"); sk != nil {
+		body += "Definition sk_yaml_get : string := " + CoqString(g.skeleton(sk.Body.List)) + ".\n"
+	} else {
+		g.errs = append(g.errs, "Yaml.Get not found")
+	}
+	if sk := g.funcDecl(g.parse("internal/generator/generator.go"), "IriExpanderFrom"); sk != nil {
+		body += "Definition sk_iri_expander_from : string := " + CoqString(g.skeleton(sk.Body.List)) + ".\n"
+	} else {
+		g.errs = append(g.errs, "IriExpanderFrom not found")
+	}
 	// options set on the JSON-LD processor in Normalize (field assignments such as options.ProcessingMode = ...)
 	optAssign := []string{}
 	if nf := g.parse("internal/validator/normalizer.go"); nf != nil {
